@@ -67,7 +67,7 @@ def install_comparator_summaries(lengths, eps_lists=()):
     summaries are rebuilt from the current source on every run.  `lengths` are the
     lengths of the signed-cost vectors (objectives + marker)."""
     import artap.operators as O
-    stubs.install((O, 'float', ops.sfloat), (O, 'math', stubs.math_shim))
+    stubs.install((O, 'float', ops.sfloat), (O, 'math', stubs.math_shim), (O, 'np', stubs.numpy_shim))
     if 'pareto' not in _ORIG:
         _ORIG['pareto'] = O.ParetoDominance.compare
         _ORIG['eps'] = O.EpsilonDominance.compare
@@ -80,7 +80,15 @@ def install_comparator_summaries(lengths, eps_lists=()):
         par_sum[L] = s
         stats.append(st)
 
+    def _arrays(p, q):
+        # the summaries stand for the method applied to LISTS (slices are copies); numpy arrays (slices are views)
+        # always go through the real method so that writes into the arguments are seen
+        import numpy
+        return isinstance(p, numpy.ndarray) or isinstance(q, numpy.ndarray)
+
     def pareto_compare(self, p, q):
+        if _arrays(p, q):
+            return real_p(self, p, q)
         if core.cur() is not None and core.cur().symbolic and (core.any_sym(p) or core.any_sym(q)):
             s = par_sum.get(len(p))
             if s is not None and len(p) == len(q):
@@ -98,6 +106,8 @@ def install_comparator_summaries(lengths, eps_lists=()):
             stats.append(st)
 
     def eps_compare(self, p, q):
+        if _arrays(p, q):
+            return real_e(self, p, q)
         if core.cur() is not None and core.cur().symbolic and (core.any_sym(p) or core.any_sym(q)):
             try:
                 key = (tuple(self.epsilons), len(p))
